@@ -58,7 +58,11 @@ func loadFENFile(path, prefix string, epd bool) ([]Root, error) {
 // PerftRoots are the roots of /repo/debug/standard.epd (read from the
 // repository's working tree).
 func PerftRoots() []Root {
-	r, err := loadFENFile("/repo/debug/standard.epd", "perft", true)
+	repo := os.Getenv("VERIF_REPO")
+	if repo == "" {
+		repo = "/repo"
+	}
+	r, err := loadFENFile(filepath.Join(repo, "debug", "standard.epd"), "perft", true)
 	if err != nil {
 		panic(err)
 	}
